@@ -1136,6 +1136,7 @@ func hdrE2E(c *suiteCtx) {
 		reqCfg := genE2ECfg(r, e2eReqNames, false)
 		respCfg := genE2ECfg(r, e2eRespNames, true)
 		legacy := i%5 == 4
+		preferEmail := false // the legacy option itself (beside the header lists it shapes): htpasswd sessions — and only those — get user = e-mail
 		if legacy {
 			m := r.intn(512)
 			bit := func(i int) bool { return m>>i&1 == 1 }
@@ -1147,9 +1148,10 @@ func hdrE2E(c *suiteCtx) {
 			}
 			rq, rs := l.VerifConvert()
 			reqCfg, respCfg = fromOptionHeaders(rq), fromOptionHeaders(rs)
+			preferEmail = l.PreferEmailToUser
 		}
 		pcfg := proxyCfg{InjectRequest: toOptionHeaders(reqCfg), InjectResponse: toOptionHeaders(respCfg),
-			SkipAuthRoutes: []string{"^/open"}, SkipJwtBearer: true, SkipProviderButton: true}
+			SkipAuthRoutes: []string{"^/open"}, SkipJwtBearer: true, SkipProviderButton: true, PreferEmailToUser: preferEmail}
 		// every htpasswd proxy leaks one inotify instance (its file watcher has no shutdown); the
 		// per-user limit is shared by all concurrently running suites, so only a fixed few get one
 		htpasswd := i < 12
@@ -1206,6 +1208,9 @@ func hdrE2E(c *suiteCtx) {
 		// --- basic-auth (htpasswd) session: user and groups only
 		if htpasswd {
 			hs := &hSess{user: "bob", groups: []string{"hg1", "hg2"}}
+			if preferEmail {
+				hs.email = "bob"
+			}
 			for k := 0; k < 3; k++ {
 				e2eForward(c, e, "basic", reqCfg, hs, "/app", "", "Basic "+base64.StdEncoding.EncodeToString([]byte("bob:pw")), genClientHeaders(r, reqCfg, true))
 			}
